@@ -90,10 +90,51 @@ def check_sccs(ctx, rule, prog, T, only=None):
                 const_finite(ctx, rule, prog, fn, cpat)
             elif kind == 'visited':
                 for bi, t in sites:
-                    g1 = CallGuard(spec, 'true', argpred=lambda f, b2, t2: t2['fd'].endswith('insert'), name='visited.insert(label) = true')
-                    g2 = CallGuard(spec, 'false', argpred=lambda f, b2, t2: t2['fd'].endswith('contains'), name='visited.contains(label) = false')
-                    oblig.effect_requires(ctx, rule, fn, 'recursive call', lambda b2, blk, _bi=bi: b2 == _bi, [g1, g2])
+                    ok, how = cycle_guard(fn, T, bi)
+                    ctx.ob(rule, name, 'recursive call', 'dominated by a membership test on a set to which the current node was added before the call (on-path / pre-order set: a cycle is cut)', ok,
+                           detail=how, site=loc(t['span']))
     return nreal
+
+
+MEMBER = re.compile(r'::(contains|contains_key)$|Iterator::any$|::insert$')
+ADDER = re.compile(r'::(insert|push|push_back)$')
+
+
+def _recv(fn, T, t):
+    try:
+        return re.sub(r'^(iter|Iterator::\w+|IntoIterator::into_iter)\((.*)\)$', r'\2', T.op_term(fn, t['args'][0]))
+    except Exception:
+        return None
+
+
+def cycle_guard(fn, T, site):
+    """a recursive call is cycle-safe when some set S satisfies: (a) `S.insert(k) = true` dominates the call, or (b) `k not in S` dominates the call AND an add to S dominates the call.
+    A set that is only filled after the recursive calls (post-order memo) does not cut a cycle."""
+    tried = []
+    for tb, t in fn.calls():
+        if not MEMBER.search(t['fd']) or not t['args']:
+            continue
+        S = _recv(fn, T, t)
+        if not S:
+            continue
+        is_insert = t['fd'].endswith('::insert')
+        if is_insert and not re.search(r'HashSet|BTreeSet', t['fd']):
+            continue
+        g = CallGuard(r'.', 'true' if is_insert else 'false', argpred=lambda f, b2, t2, _tb=tb: b2 == _tb, name='%s %s' % (S, 'insert = true' if is_insert else 'membership = false'))
+        try:
+            dom = oblig._cheap_precheck(fn, {site}, [g])
+        except Exception:
+            dom = False
+        if not dom:
+            tried.append('%s: test does not dominate' % S)
+            continue
+        if is_insert:
+            return True, 'insert into %s returns true before the call' % S
+        adds = [ab for ab, t2 in fn.calls() if ADDER.search(t2['fd']) and t2['args'] and _recv(fn, T, t2) == S and fn.dominates(ab, site)]
+        if adds:
+            return True, 'not-in-%s test and %s.push/insert before the call' % (S, S)
+        tried.append('%s: tested but the node is added only after the recursive calls (post-order memo)' % S)
+    return False, '; '.join(tried)[:300] or 'no membership test found'
 
 
 def const_finite(ctx, rule, prog, fn, cpat):
